@@ -540,3 +540,186 @@ Proof.
       { rewrite <- Hc. destruct (lim_int lim =? 0); [exact V1|]. rewrite t_view_restrict, V1. apply view_of_firstn. }
       rewrite V. split; [intros _; reflexivity|]. intros E n c Hin. rewrite E in Hin. eapply view_of_nil_empty. exact Hin.
 Qed.
+
+(** ================= E. INSERT INTO ================= *)
+Lemma project_get keep t n :
+  (forall k, In k keep -> t_exists k t = true) ->
+  t_get n (t_project keep t) = if existsb (String.eqb n) keep then t_get n t else None.
+Proof.
+  intros H. unfold t_project.
+  assert (E : filter (fun k => t_exists k t) keep = keep).
+  { clear n. induction keep as [|k keep IH]; simpl; [reflexivity|]. rewrite (H k (or_introl eq_refl)). f_equal.
+    apply IH. intros x Hx. apply H. right. exact Hx. }
+  rewrite E. unfold t_get at 1. cbn [t_cols]. clear E.
+  induction keep as [|k keep IH]; simpl; [reflexivity|].
+  pose proof (H k (or_introl eq_refl)) as Hk. unfold t_exists in Hk. destruct (t_get k t) as [c|] eqn:Ek; [|discriminate Hk].
+  cbn [app assoc]. rewrite (String.eqb_sym n k). destruct (String.eqb k n) eqn:E.
+  - apply String.eqb_eq in E. subst k. cbn [orb]. symmetry. exact Ek.
+  - cbn [orb]. apply IH. intros x Hx. apply H. right. exact Hx.
+Qed.
+
+Lemma view_col_get t n : In n (t_names t) ->
+  view_col (t_view t) n = match t_get n t with Some c => c | None => [] end.
+Proof.
+  intros Hin. unfold view_col, t_view. rewrite (assoc_self_map (fun k => t_get k t)).
+  replace (existsb (String.eqb n) (t_names t)) with true by (symmetry; apply existsb_eqb_in; exact Hin).
+  reflexivity.
+Qed.
+
+Lemma insert_into_empty ttfs tsc tstore tnames t :
+  t_names t = [] \/ (exists n0 rest, t_names t = n0 :: rest /\ t_get n0 t = Some []) ->
+  insert_into ttfs tsc tstore tnames t = Ok tstore.
+Proof.
+  unfold insert_into. intros [E|(n0 & rest & E & G)]; rewrite E; [reflexivity|]. rewrite G. reflexivity.
+Qed.
+
+Lemma insert_into_by_name ttfs tsc tstore t n0 rest c0 :
+  NoDup (epoch_name :: map fst tsc) ->
+  (forall n, In n (epoch_name :: map fst tsc) -> In n (t_names t) /\ exists c, t_get n t = Some c) ->
+  t_names t = n0 :: rest -> t_get n0 t = Some c0 -> c0 <> [] ->
+  insert_into ttfs tsc tstore (epoch_name :: map fst tsc) t = Ok (spec_insert ttfs tsc tstore (t_view t)).
+Proof.
+  intros Hnd Hpres En0 Gn0 Hc0. unfold insert_into. rewrite En0, Gn0.
+  replace (List.length c0 =? 0)%nat with false by (symmetry; apply Nat.eqb_neq; destruct c0; [contradiction | simpl; lia]).
+  set (tn := epoch_name :: map fst tsc) in *.
+  assert (Hmem : forallb (fun n => existsb (String.eqb n) (n0 :: rest)) tn = true).
+  { apply forallb_forall. intros n Hn. apply existsb_eqb_in. rewrite <- En0. apply Hpres. exact Hn. }
+  rewrite Hmem. cbn [negb].
+  assert (Hex : forall k, In k tn -> t_exists k t = true).
+  { intros k Hk. destruct (Hpres k Hk) as [_ [c Hc]]. unfold t_exists. rewrite Hc. reflexivity. }
+  assert (Hnames : t_names (t_project tn t) = tn).
+  { unfold t_project. cbn [t_names]. clear -Hex. induction tn as [|k tn IH]; simpl; [reflexivity|].
+    rewrite (Hex k (or_introl eq_refl)). f_equal. apply IH. intros x Hx. apply Hex. right. exact Hx. }
+  rewrite Hnames.
+  replace ((List.length tn =? S (List.length tsc))%nat) with true
+    by (symmetry; apply Nat.eqb_eq; unfold tn; simpl; rewrite map_length; reflexivity).
+  replace (forallb (fun n => existsb (String.eqb n) tn) tn) with true
+    by (symmetry; apply forallb_forall; intros n Hn; apply existsb_eqb_in; exact Hn).
+  cbn [andb negb]. unfold tn at 1. rewrite String.eqb_refl. cbn [negb].
+  unfold spec_insert, write_rows. f_equal.
+  assert (Hg : forall n, In n tn -> match t_get n (t_project tn t) with Some c => c | None => [] end = view_col (t_view t) n).
+  { intros n Hn. rewrite (project_get tn t n Hex).
+    replace (existsb (String.eqb n) tn) with true by (symmetry; apply existsb_eqb_in; exact Hn).
+    symmetry. apply view_col_get. apply Hpres. exact Hn. }
+  rewrite (Hg epoch_name) by (left; reflexivity).
+  replace (map (fun n => match t_get n (t_project tn t) with Some c => c | None => [] end) (map fst tsc))
+    with (map (view_col (t_view t)) (map fst tsc)); [reflexivity|].
+  apply map_ext_in. intros n Hn. symmetry. apply Hg. right. exact Hn.
+Qed.
+
+(** the rows written, as rows: the i-th selected row restricted to the target's columns *)
+Lemma tbl_rows_map (R : list row) (fs : list (row -> cell)) :
+  tbl_rows (List.length R) (map (fun r => VI (r_epoch r)) R) (map (fun f => map f R) fs)
+  = map (fun r => (r_epoch r, map (fun f => f r) fs)) R.
+Proof.
+  induction R as [|r R IH]; [reflexivity|]. cbn [List.length tbl_rows map tl].
+  rewrite !map_map. cbn [tl hd].
+  replace (map (fun x => tl (map x (r :: R))) fs) with (map (fun f => map f R) fs) by (apply map_ext; reflexivity).
+  rewrite IH. reflexivity.
+Qed.
+
+Lemma strs_eqb_eq a b : strs_eqb a b = true -> a = b.
+Proof.
+  revert b. induction a as [|x a IH]; intros [|y b] H; simpl in H; try discriminate; [reflexivity|].
+  apply andb_true_iff in H. destruct H as [H1 H2]. apply String.eqb_eq in H1. subst y. f_equal. apply IH. exact H2.
+Qed.
+
+Lemma view_col_all_empty (V : view) n : (forall k c, In (k, c) V -> c = Some []) -> view_col V n = [].
+Proof.
+  unfold view_col. induction V as [|[k c] V IH]; intros H; simpl; [reflexivity|].
+  destruct (String.eqb k n).
+  - rewrite (H k c (or_introl eq_refl)). reflexivity.
+  - apply IH. intros k' c' Hin. apply (H k' c'). right. exact Hin.
+Qed.
+
+Lemma sel_type_in sc s R n ty : sel_type sc s n = Some ty -> In n (map fst (view_of sc R s)).
+Proof.
+  unfold sel_type. destruct s as [|l]; cbn [view_of]; rewrite map_map; cbn [fst].
+  - destruct (String.eqb n epoch_name) eqn:E.
+    + apply String.eqb_eq in E. subst n. intros _. rewrite map_id. left. reflexivity.
+    + intros H. rewrite map_id. right. eapply col_type_in. exact H.
+  - destruct (find (fun it => String.eqb (out_name it) n) l) as [it|] eqn:F; cbn [option_map]; [|discriminate].
+    intros _. apply find_some in F. destruct F as [Hit E]. apply String.eqb_eq in E. subst n.
+    apply in_map_iff. exists it. split; [reflexivity | exact Hit].
+Qed.
+
+Lemma view_of_entries sc R s k c : In (k, c) (view_of sc R s) -> exists col, c = Some col.
+Proof.
+  destruct s as [|l]; cbn [view_of]; intros H; apply in_map_iff in H; destruct H as (x & E & _); inversion E; eauto.
+Qed.
+
+Lemma col_of_valid_length sc R n : In n (epoch_name :: map fst sc) -> List.length (col_of sc R n) = List.length R.
+Proof.
+  intros H. rewrite <- getters_names in H. destruct (assoc_in _ _ H) as [f Hf].
+  rewrite col_of_getter, Hf. apply map_length.
+Qed.
+
+Lemma view_of_head sc R s : sel_wf sc s = true ->
+  exists k0 p0 tail, view_of sc R s = (k0, Some (col_of sc R p0)) :: tail /\ In p0 (epoch_name :: map fst sc).
+Proof.
+  intros Hwf. destruct s as [|l]; cbn [view_of].
+  - exists epoch_name, epoch_name. eexists. split; [reflexivity | left; reflexivity].
+  - cbn [sel_wf] in Hwf. apply andb_true_iff in Hwf. destruct Hwf as [Hne Hval].
+    destruct l as [|it l']; [discriminate Hne|]. cbn [map]. exists (out_name it), (fst it). eexists. split; [reflexivity|].
+    rewrite forallb_forall in Hval. apply existsb_eqb_in. apply Hval. left. reflexivity.
+Qed.
+
+Theorem insert_spec tfs sc rows ps s lim ttfs tsc tstore icols t :
+  guard_q tfs sc rows ps s lim = true ->
+  guard_ins sc s ttfs tsc tstore icols = true ->
+  materialize_q tfs sc rows ps s (lim_int lim) = Ok t ->
+  insert_into ttfs tsc tstore (match icols with Some l => l | None => epoch_name :: map fst tsc end) t
+  = Ok (spec_insert ttfs tsc tstore (spec_q sc rows ps s lim)).
+Proof.
+  intros GQ GI EM. destruct (select_spec tfs sc rows ps s lim GQ) as (t' & EM' & Hne & Hemp).
+  rewrite EM in EM'. inversion EM'; subst t'. clear EM'.
+  unfold guard_ins in GI. rewrite !andb_true_iff, !negb_true_iff in GI.
+  destruct GI as ((((((Htf & Hnd) & Hrows) & Hsorted) & Hreord) & Htypes) & Hep).
+  assert (Etn : (match icols with Some l => l | None => epoch_name :: map fst tsc end) = epoch_name :: map fst tsc).
+  { destruct icols as [l|]; [|reflexivity]. unfold insert_list_reordered in Hreord. apply negb_false_iff in Hreord.
+    apply strs_eqb_eq. exact Hreord. }
+  rewrite Etn. rewrite spec_q_view_of in *.
+  unfold guard_q in GQ. rewrite !andb_true_iff in GQ. destruct GQ as (((((_ & _) & Hwf) & _) & _) & _).
+  destruct (spec_rows sc rows ps lim) as [|r0 R'] eqn:ER.
+  - (* nothing selected: nothing written *)
+    specialize (Hemp eq_refl).
+    rewrite insert_into_empty.
+    + unfold spec_insert. rewrite (view_col_all_empty (view_of sc [] s) epoch_name) by (intros k c Hin; eapply view_of_nil_empty; exact Hin).
+      reflexivity.
+    + destruct (t_names t) as [|n0 rest] eqn:EN; [left; reflexivity|]. right. exists n0, rest. split; [reflexivity|].
+      apply (Hemp n0). unfold t_view. rewrite EN. left. reflexivity.
+  - assert (HV : t_view t = view_of sc (r0 :: R') s) by (apply Hne; discriminate).
+    assert (Hnames : t_names t = map fst (view_of sc (r0 :: R') s)).
+    { rewrite <- HV. unfold t_view. rewrite map_map. cbn [fst]. symmetry. apply map_id. }
+    assert (Hget : forall n, In n (t_names t) -> exists c, t_get n t = Some c).
+    { intros n Hn. assert (Hin : In (n, t_get n t) (t_view t)) by (unfold t_view; apply in_map_iff; exists n; auto).
+      rewrite HV in Hin. destruct (view_of_entries _ _ _ _ _ Hin) as [c Hc]. eauto. }
+    destruct (view_of_head sc (r0 :: R') s Hwf) as (k0 & p0 & tail & EH & Hp0).
+    assert (Hfirst : exists rest, t_names t = k0 :: rest /\ t_get k0 t = Some (col_of sc (r0 :: R') p0)).
+    { rewrite EH in HV. unfold t_view in HV. destruct (t_names t) as [|n0 rest]; [discriminate HV|].
+      cbn [map] in HV. inversion HV; subst. exists rest. split; reflexivity. }
+    destruct Hfirst as (rest & En0 & Gn0).
+    rewrite <- HV.
+    apply (insert_into_by_name ttfs tsc tstore t k0 rest (col_of sc (r0 :: R') p0)); try assumption.
+    + apply nodup_names_spec. exact Hnd.
+    + intros n Hn. assert (Hin : In n (t_names t)).
+      { rewrite Hnames. destruct Hn as [<-|Hn].
+        - destruct (sel_type sc s epoch_name) as [ty|] eqn:ET; [|discriminate Hep]. eapply sel_type_in. exact ET.
+        - rewrite forallb_forall in Htypes. apply in_map_iff in Hn. destruct Hn as ([k ty] & <- & Hk).
+          specialize (Htypes _ Hk). cbn [fst snd] in Htypes.
+          destruct (sel_type sc s k) as [ty'|] eqn:ET; [|discriminate Htypes]. eapply sel_type_in. exact ET. }
+      split; [exact Hin | apply Hget; exact Hin].
+    + intros E. pose proof (col_of_valid_length sc (r0 :: R') p0 Hp0) as L. rewrite E in L. discriminate L.
+Qed.
+
+(** what querying the target afterwards returns: a sorted slot map in which slot e' holds the values of the
+    LAST selected row whose Epoch falls into that slot of the target's timeframe, else what it held before *)
+Theorem insert_lookup ttfs tsc tstore V e' :
+  sorted_store tstore ->
+  sorted_store (spec_insert ttfs tsc tstore V)
+  /\ find_row e' (spec_insert ttfs tsc tstore V)
+     = last_in_slot ttfs e' (tbl_rows (List.length (view_col V epoch_name)) (view_col V epoch_name)
+                                     (map (view_col V) (map fst tsc))) (find_row e' tstore).
+Proof.
+  intros H. unfold spec_insert. split; [apply write_rows_sorted; exact H | apply write_rows_find; exact H].
+Qed.
